@@ -363,7 +363,7 @@ func (fgen *funcGen) irCallInst(new ir.Instruction, old *ast.CallInst) error {
 	if oldFuncAttrs := old.FuncAttrs(); len(oldFuncAttrs) > 0 {
 		inst.FuncAttrs = make([]ir.FuncAttribute, len(oldFuncAttrs))
 		for i, oldFuncAttr := range oldFuncAttrs {
-			funcAttr := fgen.gen.irFuncAttribute(oldFuncAttr)
+			funcAttr := fgen.gen.irFuncAttributeOutsideGroup(oldFuncAttr)
 			inst.FuncAttrs[i] = funcAttr
 		}
 	}
